@@ -11,7 +11,8 @@ EXTENDS VerifTrace, FiniteSets
 
 \* Only the constant-level part of KeepAlive is used; its variables are bound to dummies.
 KA == INSTANCE KeepAlive WITH
-        Interval <- 4, MaxLen <- 0, Thresholds <- {1}, AnswerDelays <- {0},
+        Interval <- 4, MaxLen <- 0, Thresholds <- {1}, AnswerDelays <- {0}, DrainLens <- {1},
+        drain <- 0, drainedAt <- -1,
         script <- <<>>, thr0 <- 1, endMode <- "idle", now <- 0, pc <- "done", tickerOn <- FALSE,
         nextTick <- 0, ctxDone <- TRUE, cf <- 0, k <- 0, pend <- [o |-> "a", d |-> 0],
         resolveAt <- 0, hist <- <<>>, closedAt <- -1, userAt <- -1
@@ -20,7 +21,8 @@ VARIABLE l
 MInit == l = 1 /\ MarkInit
 
 Obs(e) == [T |-> e.T, I |-> e.I, start |-> e.start, pings |-> e.pings,
-           closed |-> e.closed, userClose |-> e.userClose, kaAlive |-> e.kaAlive, left |-> e.left, exit |-> e.exit]
+           attempts |-> e.attempts,
+           closed |-> e.closed, userClose |-> e.userClose, kaEarly |-> e.kaEarly, kaAlive |-> e.kaAlive, left |-> e.left, exit |-> e.exit]
 
 \* code-shaped expectation (strict): exported by TLC in units of I / e.exp.unit
 U(e) == e.I \div e.exp.unit
@@ -32,6 +34,8 @@ Strict(e) ==
         /\ e.level = "func" => e.pings[i].dl = KA!PingTimeout(e.I)
   /\ e.closed = (IF e.exp.closeAt < 0 THEN -1 ELSE e.start + e.exp.closeAt * U(e))
   /\ e.start = 0
+  /\ Len(e.attempts) = Len(e.pings)      \* every attempt reaches the peer
+  /\ \A i \in 1..Len(e.attempts) : i <= Len(e.pings) => e.attempts[i] = e.pings[i].at
   /\ e.ended >= 0
 
 MNext == /\ l <= NLines /\ l' = l + 1
